@@ -403,6 +403,9 @@ package gateway
 //@   loop 0 invariant [C25] pending_announcements: pendInv(h)
 //@   ensures [C25] keeps_basic: h.cfg != nil && h.state != nil && h.snConn != nil && h.mqttConn != nil && h.transactions != nil && state(h) <= 3
 //@   ensures [C25] keeps_store: storeInv(h.transactions)
+//@   ensures [C25] keeps_config: h.cfg == old(h.cfg) && h.cfg.RetryCount == old(h.cfg.RetryCount) && h.group == old(h.group) && h.predefinedTopics == old(h.predefinedTopics)
+//@   ensures [C25] keeps_topic_config: forall c string, id uint16 :: nameDefined(h.predefinedTopics, c, id) == old(nameDefined(h.predefinedTopics, c, id)) &&
+//@      nameSpec(h.predefinedTopics, c, id) == old(nameSpec(h.predefinedTopics, c, id))
 //@   ensures [C25] keeps_seq: topicSeq(h)
 //@   ensures [C25] keeps_reg: regTypes(h) && boundOnce(h)
 //@   ensures [C25,C23] keeps_buf: bufWF(h)
@@ -500,6 +503,9 @@ package gateway
 //@   let n0 = old(h.mqttOutN)
 //@   ensures [C25] keeps_basic: h.cfg != nil && h.state != nil && h.snConn != nil && h.mqttConn != nil && h.transactions != nil && state(h) <= 3
 //@   ensures [C25] keeps_store: storeInv(h.transactions)
+//@   ensures [C25] keeps_config: h.cfg == old(h.cfg) && h.cfg.RetryCount == old(h.cfg.RetryCount) && h.group == old(h.group) && h.predefinedTopics == old(h.predefinedTopics)
+//@   ensures [C25] keeps_topic_config: forall c string, id uint16 :: nameDefined(h.predefinedTopics, c, id) == old(nameDefined(h.predefinedTopics, c, id)) &&
+//@      nameSpec(h.predefinedTopics, c, id) == old(nameSpec(h.predefinedTopics, c, id))
 //@   ensures [C25] keeps_seq: topicSeq(h)
 //@   ensures [C25] keeps_reg: regTypes(h)
 //@   ensures [C25] keeps_bound: boundOnce(h)
@@ -574,6 +580,9 @@ package gateway
 //@   at Pubrel.0 after assert [C25] entry_still_wf: txEntryWF(h, box(*brokerPublishQOS2Transaction, arg(0)))
 //@   ensures [C25] keeps_basic: h.cfg != nil && h.state != nil && h.snConn != nil && h.mqttConn != nil && h.transactions != nil && state(h) <= 3
 //@   ensures [C25] keeps_store: storeInv(h.transactions)
+//@   ensures [C25] keeps_config: h.cfg == old(h.cfg) && h.cfg.RetryCount == old(h.cfg.RetryCount) && h.group == old(h.group) && h.predefinedTopics == old(h.predefinedTopics)
+//@   ensures [C25] keeps_topic_config: forall c string, id uint16 :: nameDefined(h.predefinedTopics, c, id) == old(nameDefined(h.predefinedTopics, c, id)) &&
+//@      nameSpec(h.predefinedTopics, c, id) == old(nameSpec(h.predefinedTopics, c, id))
 //@   ensures [C25] keeps_seq: topicSeq(h)
 //@   ensures [C25] keeps_reg: regTypes(h)
 //@   ensures [C25] keeps_bound: boundOnce(h)
@@ -654,6 +663,9 @@ package gateway
 //@      boundOnce(h) && connTx(h) && txWF(h)
 //@   ensures [C25] keeps_basic: h.cfg != nil && h.state != nil && h.snConn != nil && h.mqttConn != nil && h.transactions != nil && state(h) <= 3
 //@   ensures [C25] keeps_store: storeInv(h.transactions)
+//@   ensures [C25] keeps_config: h.cfg == old(h.cfg) && h.cfg.RetryCount == old(h.cfg.RetryCount) && h.group == old(h.group) && h.predefinedTopics == old(h.predefinedTopics)
+//@   ensures [C25] keeps_topic_config: forall c string, id uint16 :: nameDefined(h.predefinedTopics, c, id) == old(nameDefined(h.predefinedTopics, c, id)) &&
+//@      nameSpec(h.predefinedTopics, c, id) == old(nameSpec(h.predefinedTopics, c, id))
 //@   ensures [C25] keeps_seq: topicSeq(h)
 //@   ensures [C25] keeps_reg: regTypes(h)
 //@   ensures [C25] keeps_bound: boundOnce(h)
@@ -685,6 +697,11 @@ package gateway
 //@      state(h) == 2 && len(h.pktBuffer) == 0
 //@   ensures [C11] wakeup_in_order: istype(pkt, *snPkts1.Pingreq) && old(state(h)) == 2 && result == nil ==>
 //@      (forall n int :: s0 <= n && n < s0 + old(len(h.pktBuffer)) ==> h.snOut[n] == old(h.pktBuffer[n - s0]))
+// C11: a sleeping client that renews its sleep keeps what is queued for it and gets its DISCONNECT reply directly
+//@   ensures [C11] renewed_sleep_keeps_the_queue: istype(pkt, *snPkts1.Disconnect) && pkt.(*snPkts1.Disconnect).Duration != 0 && old(state(h)) == 2 && result == nil ==>
+//@      state(h) == 2 && sameSlice(h.pktBuffer, old(h.pktBuffer)) && h.snOutN == s0 + 1 && istype(h.snOut[s0], *snPkts1.Disconnect) && h.mqttOutN == m0
+//@   ensures [C11] sleep_is_acknowledged: istype(pkt, *snPkts1.Disconnect) && pkt.(*snPkts1.Disconnect).Duration != 0 && (old(state(h)) == 1 || old(state(h)) == 3) && result == nil ==>
+//@      state(h) == 2 && len(h.pktBuffer) == 0 && h.snOutN == s0 + 1 && istype(h.snOut[s0], *snPkts1.Disconnect)
 //@   ensures [C11] goes_to_sleep: istype(pkt, *snPkts1.Disconnect) && pkt.(*snPkts1.Disconnect).Duration != 0 && old(state(h)) != 0 && result == nil ==>
 //@      state(h) == 2 && h.mqttOutN == m0
 //@   ensures [C04] register_answered: istype(pkt, *snPkts1.Register) && old(state(h)) != 0 && old(state(h)) != 2 && result == nil ==> h.mqttOutN == m0 &&
